@@ -16,7 +16,8 @@ pub fn run(ctx: &mut Ctx) {
 }
 
 /// Linear codes with the well-formedness check disabled: the column indices are then the only
-/// transcript-derived part of a proof — small polynomials (every column opened) included.
+/// transcript-derived part of a proof — polynomials small enough that every column is opened (t capped by the
+/// codeword length) included, but never so small that two transcripts agree on all positions by chance.
 fn lincode_without_wellformedness(ctx: &mut Ctx) {
     let n = ctx.n(12, 120);
     for i in 0..n {
@@ -33,7 +34,9 @@ fn lincode_without_wellformedness(ctx: &mut Ctx) {
         let mut sp_b = LogSponge::fresh();
         sp_b.absorb_seed(2000 + i as u64);
         let (accepted_own, accepted_other, same_log, desc) = if multilinear {
-            let nv = range(&mut rng, 2, 8);
+            // ≥ 6 variables: the codeword has ≥ 16 columns, so two transcripts derive the same t ≥ 16 positions
+            // only with probability ≤ 16^-16 (with 2 columns it is 1/4 and acceptance would be legitimate)
+            let nv = range(&mut rng, 6, 8);
             let p = SparseMultilinearExtension::<Fr>::rand(nv, &mut rng);
             let lp = LabeledPolynomial::new("p".to_string(), p.clone(), None, None);
             let (ck, vk) = MlLigeroPC::trim(&pp, 0, 0, None).unwrap();
@@ -48,7 +51,7 @@ fn lincode_without_wellformedness(ctx: &mut Ctx) {
             let other = matches!(guarded(|| MlLigeroPC::check(&vk, &c, &z, [v], &proof, &mut v_other, None)), Ok(Ok(true)));
             (own, other, prover.log == v_own.log && prover.probe() == v_own.probe(), format!("ml-ligero nv={} sec={} rho_inv={} wf=off", nv, sec, rho))
         } else {
-            let d = range(&mut rng, 1, 80);
+            let d = range(&mut rng, 63, 130);
             let p = UniPoly::rand(d, &mut rng);
             let lp = LabeledPolynomial::new("p".to_string(), p.clone(), None, None);
             let (ck, vk) = UniLigeroPC::trim(&pp, 0, 0, None).unwrap();
